@@ -105,7 +105,7 @@ type stressResult struct {
 // stress: goroutines share one recipient+identity value of each type.
 func runStress(seed int64, goroutines, rounds int, maxPlain int) stressResult {
 	rng := newRand(seed)
-	shared := []*party{x25519Party(rng.bytes(32)), scryptParty("shared passphrase", 2, 10), sshEdParty(rng.bytes(32)), stressRSA()}
+	shared := []*party{x25519Party(rng.bytes(32)), scryptParty("shared passphrase", 2, 10), sshEdParty(rng.bytes(32)), stressRSA(), stressRSARaw()}
 	var res stressResult
 	// reference ciphertexts made sequentially
 	type job struct {
